@@ -399,6 +399,12 @@ class Monitor:
         nver = len(calls(ev, ".verify"))
         case = {"family": family, "detail": detail, "entry": ep_name, "token": token, "keys": base.keys, "allow": allow,
                 "form": base.form, "detached": detached}
+        if family == "other-key":
+            try:
+                ks = jkey.keys if isinstance(getattr(jkey, "keys", None), list) else [jkey]
+                case["verify_jwks"] = [k.as_dict(private=False) if k.key_type != "oct" else k.as_dict() for k in ks]
+            except Exception:
+                pass
         if not o.ok:
             ctx.count("rejected")
             ctx.count("rejected:" + o.etype)
@@ -410,6 +416,7 @@ class Monitor:
         # accepted: arbitration
         ctx.count("accepted")
         ctx.nontrivial((family, detail, ep_name, token))
+        self.returned_was_verified(ev, o, case, ep_name)
         if isinstance(token, (str, bytes)):
             r = rjws.verify_compact(token, resolver, detached_payload=detached)
         else:
@@ -488,6 +495,39 @@ class Monitor:
         self.trace_spec(ev, token, case, ep_name, detached)
         return o
 
+    def returned_was_verified(self, ev, o, case, ep_name):
+        """whatever reading of "received" applies: the payload handed back must be the payload part of a message a verify primitive was run on"""
+        ctx = self.ctx
+        msgs = [bytes(c[2]["msg"]) for c in calls(ev, ".verify") if c[2] and "msg" in c[2]]
+        if not msgs:
+            return
+        try:
+            payload, _h = result_view(ep_name, o.value)
+        except Exception:
+            return
+        ctx.count("returned_payload_checked")
+        for m in msgs:
+            part = m.split(b".", 1)[1] if b"." in m else b""
+            cands = [part]
+            try:
+                cands.append(b64u_dec_lenient(part.decode("ascii")))
+            except Exception:
+                pass
+            if ep_name == "jwt.decode":
+                ok = False
+                for c in cands:
+                    try:
+                        ok = ok or json.dumps(json.loads(c), sort_keys=True).encode() == payload
+                    except Exception:
+                        pass
+            else:
+                ok = payload in cands
+            if not ok:
+                ctx.violation(f"returned-payload-not-verified@{ep_name}",
+                              f"{ep_name} returned payload {payload[:60]!r}; the signature primitive was run over {m[:90]!r}, whose payload part is "
+                              f"neither that payload nor its base64url form", case)
+                return
+
     def trace_spec(self, ev, token, case, ep_name, detached):
         ctx = self.ctx
         vc = calls(ev, ".verify")
@@ -559,6 +599,25 @@ def run_base(mon: Monitor, base: Base, other: Base | None, ctx, families=None):
         other_pubs = [gen.public_jwk(k) for _, k in spec]
         mon.judge(base, "other-key", "same-type", base.token, joserfc_key(other_pubs), resolver=ref_resolver(other_pubs), allow=allow,
                   ep_name=ep_name, ep=ep, detached=base.detached)
+        if len(pubs) == 1:
+            # the same kid on both keys, the right key used first: nothing remembered under a kid may stand in for a verification
+            same = {**pubs[0], "kid": "same-kid"}
+            o = mon.judge(base, "valid", "kid-on-key", base.token, joserfc_key([same]), ref_resolver([same]), base.algs, ep_name, ep,
+                          expect_reject=False, detached=base.detached)
+            other_same = [{**other_pubs[0], "kid": "same-kid"}]
+            mon.judge(base, "other-key", "same-type-same-kid-after-success", base.token, joserfc_key(other_same), resolver=ref_resolver(other_same),
+                      allow=allow, ep_name=ep_name, ep=ep, detached=base.detached)
+            ks = J.load().KeySet([J.load().key(other_same[0])])
+            mon.judge(base, "other-key", "same-kid-keyset-after-success", base.token, ks, resolver=ref_resolver(other_same),
+                      allow=allow, ep_name=ep_name, ep=ep, detached=base.detached)
+    # RFC 7797 compact with the payload attached *and* handed over by the caller
+    if base.form == "c7797" and base.token.split(".")[1] != "":
+        j = J.load()
+        attached = base.token.split(".")[1].encode()
+        for name, given in (("same", attached), ("other", b"pay-9999-EUR"), ("prefix", attached[:-1]), ("empty", b"")):
+            ep = lambda t, k, a, given=given: j.rfc7797.deserialize_compact(t, k, payload=given, algorithms=a)
+            mon.judge(base, "caller-payload-vs-attached", name, base.token, jkey, resolver, allow, "rfc7797.deserialize_compact[payload=]", ep,
+                      expect_reject=(name != "same"), detached=given or None)
     return True
 
 
@@ -762,10 +821,25 @@ def replay(ctx, case):
     mon = Monitor(ctx)
     keys = case["keys"]
     pubs = [gen.public_jwk(k) for k in keys]
-    base = Base(case.get("form", "compact"), case["token"], keys, b"", [{"alg": a, "protected_octets": b"", "header": None, "kid": None} for a in case["allow"]],
+    pay = b""
+    if isinstance(case["token"], str) and case["token"].count(".") == 2:
+        try:
+            pay = b64u_dec_lenient(case["token"].split(".")[1])
+        except Exception:
+            pay = b""
+    base = Base(case.get("form", "compact"), case["token"], keys, pay, [{"alg": a, "protected_octets": b"", "header": None, "kid": None} for a in case["allow"]],
                 detached=case.get("detached"))
-    for ep_name, ep in entry_points(base) + [x for x in []]:
+    for ep_name, ep in entry_points(base):
         if ep_name == case["entry"] or case["entry"].startswith(ep_name):
+            if case.get("verify_jwks"):
+                # key substitution: first the right key (same kid as the substituted one when it has one), then the key of the recorded case
+                right = [{**p, **({"kid": v["kid"]} if "kid" in v else {})} for p, v in zip(pubs, case["verify_jwks"])]
+                call(ep, case["token"], joserfc_key(right), case["allow"])
+                vj = case["verify_jwks"]
+                jk = J.load().KeySet([J.load().key(x) for x in vj]) if "keyset" in case["detail"] else joserfc_key(vj)
+                mon.judge(base, case["family"], case["detail"], case["token"], jk, ref_resolver(vj), case["allow"], ep_name, ep,
+                          detached=case.get("detached"))
+                continue
             mon.judge(base, case["family"], case["detail"], case["token"], joserfc_key(pubs), ref_resolver(pubs), case["allow"], ep_name, ep,
                       detached=case.get("detached"))
     mon.tr.stop()
